@@ -2108,12 +2108,14 @@ class Deb822NoDuplicateFieldsParagraphElement(Deb822ParagraphElement):
         # type: (ParagraphKey) -> None
         """Re-order the given field so it is "last" in the paragraph"""
         unpacked_field, _, _ = _unpack_key(field, raise_if_indexed=True)
+        self._ensure_final_newline()
         self._kvpair_order.order_last(unpacked_field)
 
     def order_first(self, field):
         # type: (ParagraphKey) -> None
         """Re-order the given field so it is "first" in the paragraph"""
         unpacked_field, _, _ = _unpack_key(field, raise_if_indexed=True)
+        self._ensure_final_newline()
         self._kvpair_order.order_first(unpacked_field)
 
     def order_before(self, field, reference_field):
@@ -2123,6 +2125,7 @@ class Deb822NoDuplicateFieldsParagraphElement(Deb822ParagraphElement):
         The reference field must be present."""
         unpacked_field, _, _ = _unpack_key(field, raise_if_indexed=True)
         unpacked_ref_field, _, _ = _unpack_key(reference_field, raise_if_indexed=True)
+        self._ensure_final_newline()
         self._kvpair_order.order_before(unpacked_field, unpacked_ref_field)
 
     def order_after(self, field, reference_field):
@@ -2133,6 +2136,7 @@ class Deb822NoDuplicateFieldsParagraphElement(Deb822ParagraphElement):
         """
         unpacked_field, _, _ = _unpack_key(field, raise_if_indexed=True)
         unpacked_ref_field, _, _ = _unpack_key(reference_field, raise_if_indexed=True)
+        self._ensure_final_newline()
         self._kvpair_order.order_after(unpacked_field, unpacked_ref_field)
 
     def iter_keys(self):
@@ -2260,6 +2264,7 @@ class Deb822DuplicateFieldsParagraphElement(Deb822ParagraphElement):
         """Re-order the given field so it is "last" in the paragraph"""
         nodes, nodes_being_relocated = self._nodes_being_relocated(field)
         assert len(nodes_being_relocated) == 1 or len(nodes) == len(nodes_being_relocated)
+        self._ensure_final_newline()
 
         kvpair_order = self._kvpair_order
         for node in nodes_being_relocated:
@@ -2281,6 +2286,7 @@ class Deb822DuplicateFieldsParagraphElement(Deb822ParagraphElement):
         """Re-order the given field so it is "first" in the paragraph"""
         nodes, nodes_being_relocated = self._nodes_being_relocated(field)
         assert len(nodes_being_relocated) == 1 or len(nodes) == len(nodes_being_relocated)
+        self._ensure_final_newline()
 
         kvpair_order = self._kvpair_order
         # Use "reversed" to preserve the relative order of the nodes assuming a bulk reorder
@@ -2305,6 +2311,7 @@ class Deb822DuplicateFieldsParagraphElement(Deb822ParagraphElement):
         The reference field must be present."""
         nodes, nodes_being_relocated = self._nodes_being_relocated(field)
         assert len(nodes_being_relocated) == 1 or len(nodes) == len(nodes_being_relocated)
+        self._ensure_final_newline()
         # For "before" we always use the "first" variant as reference in case of doubt
         _, reference_nodes = self._nodes_being_relocated(reference_field)
         reference_node = reference_nodes[0]
@@ -2329,6 +2336,7 @@ class Deb822DuplicateFieldsParagraphElement(Deb822ParagraphElement):
         """
         nodes, nodes_being_relocated = self._nodes_being_relocated(field)
         assert len(nodes_being_relocated) == 1 or len(nodes) == len(nodes_being_relocated)
+        self._ensure_final_newline()
         _, reference_nodes = self._nodes_being_relocated(reference_field)
         # For "after" we always use the "last" variant as reference in case of doubt
         reference_node = reference_nodes[-1]
@@ -2718,7 +2726,10 @@ class Deb822FileElement(Deb822Element):
         # Note the special case where the file ends on a comment; here we insert a whitespace too
         # to be sure.  Otherwise we would have to check that there is an empty line before that
         # comment and that is too much effort.
-        if tail_element and not isinstance(tail_element, Deb822WhitespaceToken):
+        if isinstance(tail_element, Deb822ParagraphElement):
+            tail_element._ensure_final_newline()
+        if tail_element and (not isinstance(tail_element, Deb822WhitespaceToken)
+                             or not tail_element.text.endswith("\n")):
             self._token_and_elements.append(self._set_parent(Deb822WhitespaceToken('\n')))
         self._token_and_elements.append(self._set_parent(paragraph))
         paragraph.parent_element = self
